@@ -140,10 +140,59 @@ fn run_status_race(case: &Case, out: &mut Out) {
   }
 }
 
+/// kind `statuswait`: the waiter is ALREADY parked in `wait_for_end` (it has checked
+/// the flag, registered its waker and gone to sleep) when the producer terminates
+/// from another thread: the terminal must wake it.  The hook H3 only reports that
+/// the first flag check has happened; if the waiter were slower than the grace
+/// period it would see the flag itself and return — the verdict can only err
+/// towards `returned`.
+fn run_status_wait(case: &Case, out: &mut Out) {
+  use rxrust::ops::complete_status::verif::AFTER_CHECK;
+  use std::sync::mpsc;
+  use std::time::Duration;
+  for (k, ev) in case.events.iter().enumerate() {
+    out.cur = k;
+    let term = Notif::parse(&ev[1]);
+    let subject: SubjectThreads<Val, i64> = SubjectThreads::default();
+    let tlog = Arc::new(Mutex::new(Vec::<Notif>::new()));
+    let (op, status) = subject.clone().complete_status();
+    let _ = op.actual_subscribe(ProbeT(tlog.clone()));
+    let (tx, rx) = mpsc::channel::<()>();
+    let (ctx, crx) = mpsc::channel::<()>();
+    std::thread::spawn(move || {
+      AFTER_CHECK.with(|c| {
+        *c.borrow_mut() = Some(Box::new(move || {
+          let _ = ctx.send(());
+        }))
+      });
+      CompleteStatus::wait_for_end(status);
+      let _ = tx.send(());
+    });
+    let _ = crx.recv_timeout(Duration::from_millis(2000));
+    std::thread::sleep(Duration::from_millis(40));
+    match term {
+      Notif::Error(e) => subject.clone().error(e),
+      Notif::Next(v) => {
+        // an item first, then the completion
+        subject.clone().next(v);
+        subject.clone().complete()
+      }
+      Notif::Complete => subject.clone().complete(),
+    }
+    match rx.recv_timeout(Duration::from_millis(2500)) {
+      Ok(()) => out.emit(k, "wait=returned".to_string()),
+      Err(_) => out.emit(k, "wait=HANG".to_string()),
+    }
+  }
+}
+
 pub fn run(case: &Case, out: &mut Out) {
   let kind = case.field("kind")[0].atom().to_string();
   if kind == "statusrace" {
     return run_status_race(case, out);
+  }
+  if kind == "statuswait" {
+    return run_status_wait(case, out);
   }
   let threads = case.flavor == "threads";
   let wk = Arc::new(CountWaker(AtomicUsize::new(0)));
